@@ -512,6 +512,67 @@ let tovec_explore () =
      done
    with End_of_file -> ())
 
+
+(* ---- C12: subjects under concurrency ---- *)
+let subj_oracle_cmd () =
+  (try
+     while true do
+       let line = input_line stdin in
+       if String.length line > 0 && line.[0] = '(' then begin
+         match parse_sx line with
+         | [L (A "idx" :: xs)] ->
+             let l = List.map atom_nat xs in
+             print_endline (if consecutive l then "ok" else "not-consecutive")
+         | _ -> print_endline "(error \"bad idx\")"
+       end
+     done
+   with End_of_file -> ())
+
+let subj_explore () =
+  (try
+     while true do
+       let line = input_line stdin in
+       if String.length line > 0 && line.[0] = '(' then begin
+         match parse_sx line with
+         | [L [A "subj"; A kind; L (A "scripts" :: ss); L [A "late"; late]; L [A "leaver"; leaver]] ] ->
+             let scripts = List.map (function L (A "s" :: vs) -> List.map atom_nat vs | x -> failwith ("bad script " ^ sx_to_string x)) ss in
+             let np = List.length scripts in
+             let arr = Array.of_list scripts in
+             let late = int_of_nat (atom_nat late) = 1 and leaver = int_of_nat (atom_nat leaver) = 1 in
+             let logs_of (acts : sact list) (init : scfg) : string list =
+               let norm (c : scfg) : scfg =
+                 let tab = Array.init np (fun i -> c.s_prod (nat_of_int i)) in
+                 { c with s_prod = (fun p -> let i = int_of_nat p in if i < np then tab.(i) else { sp_script = []; sp_k = nat_of_int 0; sp_pos = SIdle }) } in
+               let key (c : scfg) = Marshal.to_string (c.s_inmap, c.s_alive, c.s_joined, c.s_leave, List.init np (fun i -> c.s_prod (nat_of_int i)), c.s_log) [] in
+               let succ c = let k = key c in List.filter (fun c' -> key c' <> k) (List.map (fun a -> norm (sstep c a)) acts) in
+               let (finals, complete) = explore key succ (norm init) 2000000 in
+               if not complete then failwith "subj-explore: state limit";
+               List.sort_uniq compare (List.map (fun c -> String.concat " " (List.map (fun ((_, _), v) -> string_of_int (int_of_nat v)) c.s_log)) finals) in
+             let prod_acts = List.concat (List.init np (fun i -> let p = nat_of_int i in [SSnap p; SDeliver p; SFinish p])) in
+             let init0 = sinit (fun p -> let i = int_of_nat p in if i < np then arr.(i) else []) in
+             if kind = "subject" then begin
+               let u1 = if late then logs_of (SJoin :: prod_acts) init0 else [""] in
+               let u2 = if leaver then logs_of (SClear :: SRemove :: prod_acts) (sstep init0 SJoin) else [""] in
+               Printf.printf "(logs (u1 %s) (u2 %s))\n" (String.concat " " (List.map (fun l -> "(" ^ l ^ ")") u1)) (String.concat " " (List.map (fun l -> "(" ^ l ^ ")") u2))
+             end else begin
+               let mode = if kind = "replay" then HReplay else HBehavior in
+               let hinit0 = hinit mode (nat_of_int 0) (fun p -> let i = int_of_nat p in if i < np then arr.(i) else []) in
+               let hnorm (c : hcfg) : hcfg =
+                 let tab = Array.init np (fun i -> c.h_prod (nat_of_int i)) in
+                 { c with h_prod = (fun p -> let i = int_of_nat p in if i < np then tab.(i) else { hp_script = []; hp_k = nat_of_int 0; hp_pos = HIdle }) } in
+               let hkey (c : hcfg) = Marshal.to_string (c.h_hist, c.h_in, c.h_lock, c.h_k, c.h_thr, c.h_stage, List.init np (fun i -> c.h_prod (nat_of_int i)), c.h_log) [] in
+               let hacts = (if late then [JStep] else []) @ List.concat (List.init np (fun i -> let p = nat_of_int i in [HAppend p; HSnap p; HDeliver p])) in
+               let succ c = let k = hkey c in List.filter (fun c' -> hkey c' <> k) (List.map (fun a -> hnorm (hstep c a)) hacts) in
+               let (finals, complete) = explore hkey succ (hnorm hinit0) 2000000 in
+               if not complete then failwith "subj-explore: state limit";
+               let u1 = if late then List.sort_uniq compare (List.map (fun c -> String.concat " " (List.map (fun ((_, _), v) -> string_of_int (int_of_nat v)) c.h_log)) finals) else [""] in
+               Printf.printf "(logs (u1 %s))\n" (String.concat " " (List.map (fun l -> "(" ^ l ^ ")") u1))
+             end
+         | _ -> print_endline "(error \"bad subj\")"
+       end
+     done
+   with End_of_file -> ())
+
 let () =
   match Array.to_list Sys.argv with
   | _ :: "run-seq" :: fuel :: _ -> run_seq (int_of_string fuel)
@@ -520,4 +581,6 @@ let () =
   | _ :: "gate-oracle" :: _ -> gate_oracle_cmd ()
   | _ :: "queue-accept" :: _ -> queue_accept_cmd ()
   | _ :: "tovec-explore" :: _ -> tovec_explore ()
+  | _ :: "subj-explore" :: _ -> subj_explore ()
+  | _ :: "subj-oracle" :: _ -> subj_oracle_cmd ()
   | _ -> prerr_endline "usage: driver run-seq FUEL < scenarios"; exit 2
